@@ -326,6 +326,21 @@ def r5_exclusions(ctx):
             if dotted(c.func) == '_check_mutually_exclusive':
                 pairs.add(tuple(a.value for a in c.args[1:] if isinstance(a, ast.Constant)))
     ctx.check(pairs == {('key', 'key-file'), ('password', 'password-file')}, 'C19.R5', f'{func_label(ak)}|file-exclusions-first', loc(ak, ak.node), 'file: (key, key-file) and (password, password-file) are checked for exclusivity before any option is consumed', f'file: exclusivity checks are {sorted(pairs)} / not the first statements')
+    helper = cm.functions.get('_check_mutually_exclusive')
+    if helper is None:
+        raise AnalysisError('C19.R5: config._check_mutually_exclusive missing')
+    ctx.analysed(helper)
+    presence = any(isinstance(g, ast.GeneratorExp) and isinstance(g.elt, ast.Compare) and isinstance(g.elt.ops[0], ast.In) and isinstance(g.elt.comparators[0], ast.Name) and g.elt.comparators[0].id == helper.node.args.args[0].arg for g in ast.walk(helper.node))
+    two = sum(1 for c in ast.walk(helper.node) if isinstance(c, ast.Call) and dotted(c.func) == 'any') >= 2 or any(isinstance(c, ast.Call) and dotted(c.func) == 'sum' for c in ast.walk(helper.node))
+    raises = any(isinstance(r, ast.Raise) for r in ast.walk(helper.node))
+    ctx.check(
+        presence and two and raises,
+        'C19.R5',
+        f'{func_label(helper)}|exclusivity-by-presence',
+        loc(helper, helper.node),
+        '_check_mutually_exclusive rejects a mapping in which two of the keys are PRESENT (whatever their values)',
+        '_check_mutually_exclusive no longer decides by key presence (e.g. by truthiness): `password = ""` together with `password-file` is accepted and the lower-priority source wins',
+    )
     cl = corpus.module('cli')
     groups = {}
     for a in ast.walk(cl.tree):
